@@ -120,12 +120,12 @@ PROPS = {
         "theorems": ["C13_request_refines_spec", "C13_location_is_native_path", "C13_failed_request_changes_nothing", "C13_one_response_per_request_in_order",
                      "C13_first_failure_stops_execution", "C13_all_executed_without_failure", "C13_cases_exhaustive",
                      "C13_loop_total", "C13_tree_stays_tree"],
-        "components": ["fsmodel", "recv"],
+        "components": ["fsmodel", "recv", "send"],
         "rule": "Component recv (transaction clause): the lock-step scripts of the receive transaction, a quarter of which carry filestore "
                 "requests in their Metadata PDU (create a file, make a directory; fresh names, so each succeeds once and would fail if run "
                 "again) under all the perturbations of those scripts (lost / late / duplicated Metadata, cancel, suspend, faults); a "
                 "response is printed as the request it answers and compared with the model's, its status and its effect on the real "
-                "filestore are checked by the oracle. Component fsmodel: cases = batches of request lists / request histories on a real NativeFileStore in a temporary directory initialised to "
+                "filestore are checked by the oracle. Component send: Finished PDUs delivered to the real send transaction, a third carrying filestore responses under various conditions; the oracle requires that the sending user's Finished indication shows as many responses as the PDU carried. Component fsmodel: cases = batches of request lists / request histories on a real NativeFileStore in a temporary directory initialised to "
                 "{f1, f2, d1/, d1/f}. X: a whole request list carried by a Metadata PDU into a real RecvTransaction (unacknowledged, no file) "
                 "and executed by the receiver's own fail-the-rest loop when the EOF arrives; statuses read from the Finished indication, then "
                 "the sorted recursive listing with contents. Every list of up to 3 requests over 57 requests (6 single-name actions x "
